@@ -394,22 +394,10 @@ func c01Identity(c *Ctx) *RuleResult {
 		u := cs.Unit
 		gs := flattenGuards(GuardsOf(u.Info(), u.Decl.Body, call))
 		construct := constructOf(u, "complete-by-worker")
-		okG := false
-		for _, g := range gs {
-			gc, ok := ast.Unparen(g.Cond).(*ast.CallExpr)
-			if !ok || !g.Pos {
-				continue
-			}
-			pred := calleeOf(u.Info(), gc)
-			if pred == nil || p.Decl(pred) == nil {
-				continue
-			}
-			if why := digestPredicateOK(p, pred); why == "" {
-				okG = true
-			} else {
-				r.bad(c.Prop, constructOf(u, "predicate "+pred.Name()), posOf(p, p.Decl(pred)), why)
-				okG = true // reported on the predicate
-			}
+		okG, why, whyPos := digestEqualityGuarded(p, u, gs)
+		if !okG && why != "" {
+			r.bad(c.Prop, constructOf(u, "digest predicate"), posOf(p, whyPos), why)
+			okG = true // reported on the predicate
 		}
 		if okG {
 			r.ok(construct, posOf(p, call), "guards: "+fmt.Sprint(guardStrings(gs)))
@@ -418,6 +406,48 @@ func c01Identity(c *Ctx) *RuleResult {
 		}
 	}
 	return r
+}
+
+// digestEqualityGuarded: among the guards there is the digest-equality test -- a call of a predicate
+// of the right shape, or (when that predicate was small enough to be expanded in place) the
+// proto.Equal(reported, <task>.desiredState.ActionDigest) comparison itself. why reports a predicate
+// of the wrong shape.
+func digestEqualityGuarded(p *Program, u *FuncUnit, gs []Guard) (ok bool, why string, whyPos ast.Node) {
+	info := u.Info()
+	ds := p.LookupField(schedPkg, "task", "desiredState")
+	for _, g := range gs {
+		gc, isCall := ast.Unparen(g.Cond).(*ast.CallExpr)
+		if !isCall || !g.Pos {
+			continue
+		}
+		fn := calleeOf(info, gc)
+		if fn == nil {
+			continue
+		}
+		if fn.Pkg() != nil && fn.Pkg().Path() == "google.golang.org/protobuf/proto" && fn.Name() == "Equal" && len(gc.Args) == 2 {
+			for _, a := range gc.Args {
+				if sel, ok := ast.Unparen(resolveLocalAlias(u, a)).(*ast.SelectorExpr); ok && sel.Sel.Name == "ActionDigest" {
+					if f := fieldOf(info, sel.X); f == ds {
+						return true, "", nil
+					}
+					// a selector rebuilt by guard expansion
+					if inner, ok := ast.Unparen(sel.X).(*ast.SelectorExpr); ok && inner.Sel.Name == ds.Name() {
+						return true, "", nil
+					}
+				}
+			}
+			continue
+		}
+		if p.Decl(fn) == nil {
+			continue
+		}
+		if w := digestPredicateOK(p, fn); w == "" {
+			return true, "", nil
+		} else {
+			why, whyPos = w, p.Decl(fn)
+		}
+	}
+	return false, why, whyPos
 }
 
 // digestPredicateOK checks the shape of isRunningCorrectTask-like predicates: every `return X` is
@@ -436,6 +466,17 @@ func digestPredicateOK(p *Program, pred *types.Func) string {
 		res := ast.Unparen(ret.Results[0])
 		if id, ok := res.(*ast.Ident); ok && id.Name == "false" {
 			return true
+		}
+		// `x != nil && proto.Equal(...)`: the comparison is the last conjunct, nil tests may precede
+		for {
+			be, ok := res.(*ast.BinaryExpr)
+			if !ok || be.Op != token.LAND {
+				break
+			}
+			if _, _, isNil := nilTestOf(Guard{be.X, true}); !isNil {
+				break
+			}
+			res = ast.Unparen(be.Y)
 		}
 		call, ok := res.(*ast.CallExpr)
 		if ok {
